@@ -211,6 +211,17 @@ def object_clauses(c, after, out):
     if kind is None:
         if after != s:
             yield (f"C16-object-query-changes-status:{entry}", f"{entry}() changed the status {s} -> {after}")
+        if entry in ("can_cancel", "can_replace"):
+            # the object's answer is the transition function's gate for its status - nothing else (not whether an
+            # OrigClOrdID happens to be set, not the history)
+            k2, rep2 = (FMsg.ORDERCANCELREQUEST, "6") if entry == "can_cancel" else (FMsg.ORDERCANCELREPLACEREQUEST, "E")
+            try:
+                gate = FIXNewOrderSingle.change_status(s, k2, 0, rep2, raise_on_err=False) is not None
+            except Exception:  # noqa: BLE001
+                return
+            if out is not gate:
+                yield (f"C16-object-gate-differs-from-transition:{entry}",
+                       f"{entry}() = {out!r} for status {s} (OrigClOrdID {'set' if orig else 'unset'}), the transition function says {gate}")
         return
     if entry in ("exec", "cxlrej"):
         rep, ex = r, (e if entry == "exec" else 0)
